@@ -24,6 +24,8 @@ pub fn bindings() -> Vec<(Fmt, Binding)> {
             v.push((f, Binding::Box));
         }
     }
+    v.push((Fmt::Mp4, Binding::MerkleAligned));
+    v.push((Fmt::Mp4, Binding::Merkle));
     v
 }
 
@@ -46,7 +48,12 @@ pub fn sign_for(rc: &mut RunCtx, fmt: Fmt, binding: Binding, variant: u64) -> Re
     let overlay = sdk::binding_overlay(binding);
     let ctx = Arc::new(sdk::make_context(&overlay));
     let mut ar = crate::rng::Rng::new(hash_str(&format!("{}-{}-{variant}", rc.seed, fmt.name())));
-    let asset = assets::generate(fmt, &mut ar);
+    let asset = match binding {
+        // leaf-covered part = mdat box minus its first 16 bytes
+        Binding::MerkleAligned => assets::mp4_with_mdat_size(&mut ar, 16 + 1024 * (2 + (variant as usize % 2))),
+        Binding::Merkle => assets::mp4_with_mdat_size(&mut ar, 16 + 1024 + [1usize, 1023, 500][variant as usize % 3]),
+        _ => assets::generate(fmt, &mut ar),
+    };
     let def = sdk::simple_definition("c01");
     let ctx2 = ctx.clone();
     let mut err = None;
